@@ -119,6 +119,64 @@ def wrap_objects(case, call):
     return call
 
 
+
+def _timed_nodes(node, out):
+    """the temporal nodes with an interval, in the order the visitors convert their bounds (operands first)"""
+    from rtamt.syntax.node.binary_node import BinaryNode
+    name = type(node).__name__
+    n = 2 if isinstance(node, BinaryNode) else (0 if name in ('Variable', 'Constant') else 1)
+    for ch in node.children[:n]:
+        _timed_nodes(ch, out)
+    if name.startswith('Timed'):
+        out.append(node)
+
+
+def bounds_log(spec, case, call):
+    """['bounds_log']: the first use wraps time_unit_transformer of the interpreter object(s) of THIS specification by a logger
+    (an instance attribute: nothing global, nothing in the repository changes); a later use returns what the following calls
+    made it return: {'log': [[begin, end, type(begin), type(end)] ...] with the numbers as exact texts, 'fail': class of the first
+    exception it raised, or None}.  ['bounds_log', 'direct']: the (wrapped) method is called on the temporal nodes of the first
+    assertion in visiting order instead (bounds of ~2**63 samples, whose operators cannot be allocated)."""
+    from fractions import Fraction
+    st = getattr(spec, '_verif_bounds_log', None)
+    if st is None:
+        st = {'log': [], 'fail': None}
+        spec._verif_bounds_log = st
+        for nm in ('offline_interpreter', 'online_interpreter'):
+            interp = getattr(spec, nm, None)
+            if interp is None or not hasattr(interp, 'time_unit_transformer'):
+                continue
+
+            def wrap(node, orig=interp.time_unit_transformer, st=st):
+                try:
+                    r = orig(node)
+                except BaseException as exc:  # noqa
+                    if st['fail'] is None:
+                        c = classify(exc)
+                        st['fail'] = 'rtamt' if c['status'] == 'rtamt' else 'crash:' + c.get('kind', '?')
+                    raise
+                if st['fail'] is None:
+                    b, e = r
+                    st['log'].append([str(Fraction(b)), str(Fraction(e)), type(b).__name__, type(e).__name__])
+                return r
+            interp.time_unit_transformer = wrap
+        if len(call) < 2:
+            return {'status': 'ok', 'value': None}
+    if len(call) > 1 and call[1] == 'direct':
+        from rtamt.semantics.abstract_interpreter import AbstractInterpreter
+        nm = 'offline_interpreter' if case['monitor'].endswith('offline') and hasattr(spec, 'offline_interpreter') else 'online_interpreter'
+        interp = getattr(spec, nm)
+        AbstractInterpreter.set_ast(interp, spec.ast)        # (only records the AST: no operator is built)
+        nodes = []
+        _timed_nodes(spec.ast.specs[0], nodes)
+        try:
+            for n in nodes:
+                interp.time_unit_transformer(n)
+        except Exception:  # noqa
+            pass
+    return {'status': 'ok', 'value': {'log': [list(x) for x in st['log']], 'fail': st['fail']}}
+
+
 def run_case(case):
     """Returns {'setup': outcome, 'calls': [outcome...], 'args_after': [...]}.
     An outcome is {'status':'ok','value':...} | {'status':'rtamt'} | {'status':'crash','kind':...}."""
@@ -290,6 +348,8 @@ def run_case(case):
                     'vars': sorted(a.vars), 'types': [list(x) for x in a.var_type_dict.items()], 'io': [list(x) for x in a.var_io_dict.items()],
                     'consts': [list(x) for x in a.const_val_dict.items()], 'topics': [list(x) for x in a.var_topic_dict.items()],
                     'free': sorted(a.free_vars), 'out': [a.out_var, a.out_var_field], 'asts': [ast_dump(n) for n in a.specs]}}
+            elif kind == 'bounds_log':
+                res = bounds_log(spec, case, call)
             elif kind == 'explain':
                 spec.explain()
                 ex = spec.explainer.explanations if hasattr(spec.explainer, 'explanations') else None
@@ -425,6 +485,8 @@ def do_call(spec, case, call):
         return {'status': 'ok', 'value': spec.spec_print()}
     if kind == 'names':
         return {'status': 'ok', 'value': [names_dump(n) for n in spec.ast.specs]}
+    if kind == 'bounds_log':
+        return bounds_log(spec, case, call)
     raise ValueError('unknown call ' + kind)
 
 
